@@ -95,26 +95,31 @@ def run_case(case):
     from nasim.envs import NASimEnv
     sc, sp = build_source(case["source"])
     env = NASimEnv(sc, **case["modes"])
-    np.random.seed(case["seed"])
-    env.reset()
-    h = hashlib.sha256()
-    chance = 0
-    for a in case["actions"]:
-        if a == "reset":
-            env.reset()
-            h.update(b"reset")
-            continue
-        o, r, term, trunc, info = env.step(int(a))
-        h.update(env.current_state.tensor.tobytes())
-        h.update(np.asarray(o).tobytes())
-        h.update(repr((float(r), bool(term), bool(trunc),
-                       bool(info["success"]), float(info["value"]),
-                       bool(info["connection_error"]),
-                       bool(info["permission_error"]),
-                       bool(info["undefined_error"]))).encode())
-        if info["undefined_error"]:
-            chance += 1
-    return {"fp": h.hexdigest()[:20], "chance": chance}
+    def play():
+        np.random.seed(case["seed"])
+        env.reset()
+        h = hashlib.sha256()
+        chance = 0
+        for a in case["actions"]:
+            if a == "reset":
+                env.reset()
+                h.update(b"reset")
+                continue
+            o, r, term, trunc, info = env.step(int(a))
+            h.update(env.current_state.tensor.tobytes())
+            h.update(np.asarray(o).tobytes())
+            h.update(repr((float(r), bool(term), bool(trunc),
+                           bool(info["success"]), float(info["value"]),
+                           bool(info["connection_error"]),
+                           bool(info["permission_error"]),
+                           bool(info["undefined_error"]))).encode())
+            if info["undefined_error"]:
+                chance += 1
+        return h.hexdigest()[:20], chance
+    fp, chance = play()
+    # the same seeded run once more on the very same environment object
+    fp_same_env, _ = play()
+    return {"fp": fp, "chance": chance, "fp_same_env": fp_same_env}
 
 
 def child_main():
@@ -267,7 +272,14 @@ def run(prop, tier, seed, shard, nshards):
         fps = [r["fp"] for r in res]
         again = [r["fp_again"] for r in res]
         wit = {"kind": "repro", "case": c}
-        if any(a != b for a, b in zip(fps, again)):
+        if ctype == "traj" and any(r.get("fp_same_env") != r["fp"]
+                                   for r in res):
+            acc.violation("not_reproducible_on_same_environment",
+                          "not_reproducible_on_same_environment",
+                          {"first": fps,
+                           "again_on_same_env": [r.get("fp_same_env")
+                                                 for r in res]}, wit)
+        elif any(a != b for a, b in zip(fps, again)):
             acc.violation("not_reproducible_in_process",
                           f"not_reproducible_in_process:{ctype}",
                           {"first": fps, "second": again}, wit)
@@ -305,7 +317,9 @@ def replay(prop, path):
     outs = spawn_children([c], "thorough")
     fps = [o["results"][0].get("fp") for o in outs if "error" not in o]
     ag = [o["results"][0].get("fp_again") for o in outs if "error" not in o]
-    if len(set(fps)) > 1 or fps != ag:
+    se = [o["results"][0].get("fp_same_env", o["results"][0].get("fp"))
+          for o in outs if "error" not in o]
+    if len(set(fps)) > 1 or fps != ag or fps != se:
         print(f"VIOLATION property={prop} replay={path}")
         print("  fingerprints:", fps, ag)
         return 1
